@@ -349,7 +349,8 @@ class SymInterp:
                 if callable(getattr(type(v), "symattr", None)):
                     return v.symattr(e.attr)
                 raise AnalysisError(f"symbolic object {v!r} has no attribute {e.attr}")
-            if isinstance(v, (list, tuple, str, dict)) and e.attr in ("append", "extend", "copy", "remove", "index", "insert"):
+            if isinstance(v, (list, tuple, str, dict, set)) and e.attr in ("append", "extend", "copy", "remove", "index", "insert", "get", "items", "keys", "values", "update", "pop", "setdefault",
+                                                                           "sort", "reverse", "count", "add", "discard", "clear"):
                 return getattr(v, e.attr)
             raise AnalysisError(f"attribute {unparse(e)} on a non-symbolic value")
         if isinstance(e, ast.Slice):
@@ -387,6 +388,10 @@ class SymInterp:
                 return a ** b
             if isinstance(e.op, ast.MatMult) and (isinstance(a, Blob) or isinstance(b, Blob)):
                 return Blob("matmul")
+            if isinstance(e.op, ast.MatMult) and isinstance(a, Sym) and callable(getattr(type(a), "__matmul__", None)):
+                return a @ b
+            if isinstance(e.op, ast.Pow) and isinstance(a, Sym) and callable(getattr(type(a), "__pow__", None)):
+                return a ** b
             raise AnalysisError(f"operator in {unparse(e)} outside the fragment")
         if isinstance(e, ast.UnaryOp):
             v = self.ev(e.operand, env)
@@ -486,7 +491,8 @@ class SymInterp:
             if n in self.builtins:
                 return self.builtins[n](*args, **kwargs)
             std = {"len": len, "list": list, "tuple": tuple, "enumerate": lambda x: list(enumerate(x)), "range": lambda *a: list(range(*a)), "zip": lambda *a: list(zip(*a)),
-                   "str": lambda x: x if isinstance(x, str) else repr(x), "isinstance": lambda *a: False, "min": min, "max": max, "bool": bool, "int": int, "abs": abs, "slice": slice, "getattr": getattr, "setattr": setattr, "hasattr": hasattr, "dict": dict, "reversed": lambda x: list(reversed(x)), "set": set, "sorted": sorted}
+                   "str": lambda x: x if isinstance(x, str) else repr(x), "isinstance": lambda *a: False, "min": min, "max": max, "bool": bool, "int": int, "abs": abs, "slice": slice, "getattr": getattr, "setattr": setattr, "hasattr": hasattr, "dict": dict, "reversed": lambda x: list(reversed(x)), "set": set, "sorted": sorted, "map": lambda f_, *xs: [f_(*a_) for a_ in zip(*xs)], "any": any, "all": all, "sum": sum,
+                   "frozenset": frozenset, "round": round, "divmod": divmod}
             if n in std:
                 return std[n](*args)
             if n == "id":
